@@ -237,3 +237,25 @@ def run(chk):
                      "VerifyPeerCertificate/VerifyConnection callbacks are not varied",
                      "DTLS 1.3: signature scheme of the encrypted CertificateVerify is not observable on the wire "
                      "(compared for DTLS 1.2 only)"])
+
+
+def replay(chk, path):
+    """bin/check C11 --replay <file>: rerun the one association (option sets, steering, seeding association) of a finding"""
+    c, body = c11lib.replay_case(chk, path, ["c11", "c11x"])
+    if c is not None:
+        hits = case_monitors(c)
+        print("replayed: client %s / server %s" % (json.dumps(c11lib.slim_case(c)["client"]), json.dumps(c11lib.slim_case(c)["server"])))
+        for mon, text in hits:
+            chk.finding(SITES.get(mon, DEFAULT_SITE), {"monitor": mon}, text, {"how": "replay of " + path, "case": c11lib.slim_case(c)})
+        st = c11lib.steer_of(c)
+        ch1 = st.get("ch1_groups") is not None or st.get("ch1_alpn") is not None or st.get("ch1_strip_ems") or st.get("ch1_strip_sni")
+        if ch1 and not c["s"]["skip_hv"]:
+            twin, _ = c11lib.replay_case(chk, path, ["c11", "c11x"], untouched=True)
+            if twin is not None:
+                for mon, text in c11lib.monitor_first_hello(c, twin):
+                    hits.append((mon, text))
+                    chk.finding(SITES.get(mon, DEFAULT_SITE), {"monitor": mon}, text,
+                                {"how": "replay of " + path, "case": c11lib.slim_case(c), "untouched": c11lib.slim_case(twin)})
+        if not hits:
+            print("replay: no monitor fires on this tree (stored signature %s)" % json.dumps(body.get("signature")))
+    chk.finish(level="proof", rule="replay of one stored association")
